@@ -481,6 +481,24 @@ func (r *run) opConvert(op interface{ Arg(int) int64 }) {
 			err = res.err
 		}
 	} else {
+		if r.prop == "C04" && op.Arg(1) > 0 {
+			// a first attempt whose transaction is rolled back — the closure
+			// fails after ConvertToWatchingOnly returned, or the commit fails —
+			// and then the retry on the same manager
+			if op.Arg(1) == 1 {
+				_ = updateDB(fdb, func(ns walletdb.ReadWriteBucket) error {
+					if e := mgr.ConvertToWatchingOnly(ns); e != nil {
+						return e
+					}
+					return errRollback
+				})
+			} else {
+				fdb.FailCommit = true
+				_ = updateDB(fdb, func(ns walletdb.ReadWriteBucket) error { return mgr.ConvertToWatchingOnly(ns) })
+				fdb.FailCommit = false
+			}
+			r.env.Count("probe.conversion-retried-after-a-rolled-back-attempt")
+		}
 		err = updateDB(fdb, func(ns walletdb.ReadWriteBucket) error { return mgr.ConvertToWatchingOnly(ns) })
 	}
 	if err != nil {
